@@ -698,7 +698,10 @@ where
     }
 
     pub(crate) async fn finish_inner(&mut self) -> LdapResult {
-        if self.state != StreamState::Done {
+        // Only a Search which is still in progress needs its ID scrubbed. In the Error
+        // state that has already been done (timeout) or the ID is gone (closed channel);
+        // asking again could hit an operation which has been given the same ID since.
+        if self.state == StreamState::Active {
             let last_id = self.ldap.last_id;
             if let Err(e) = self.ldap.id_scrub_tx.send(last_id) {
                 warn!(
